@@ -23,7 +23,10 @@ use std::path::PathBuf;
 use std::sync::atomic::{AtomicUsize, Ordering};
 
 pub fn module() -> PropModule {
-    PropModule { coq_module: "Check_C14", runner: "Check_C14.run", generate, execute, label }
+    // `Check_C14.run` evaluates the variant named by `Check_C14.tree_variant`; for trying the
+    // repair patch without editing the development: VERIF_C14_VARIANT=fixed
+    let runner = if std::env::var("VERIF_C14_VARIANT").map(|v| v == "fixed").unwrap_or(false) { "Check_C14.run_fixed" } else { "Check_C14.run" };
+    PropModule { coq_module: "Check_C14", runner, generate, execute, label }
 }
 
 static COUNTER: AtomicUsize = AtomicUsize::new(0);
@@ -102,6 +105,14 @@ fn symbol_uris(server: &Server) -> Option<Vec<(String, Url)>> {
     match r {
         WorkspaceSymbolResponse::Flat(v) => Some(v.into_iter().map(|s| (s.name, s.location.uri)).collect()),
         WorkspaceSymbolResponse::Nested(_) => Some(vec![]),
+    }
+}
+
+/// a path as a Coq string, byte-exact also when it is not UTF-8
+fn gbytes(b: &[u8]) -> String {
+    match std::str::from_utf8(b) {
+        Ok(s) => gstr(s),
+        Err(_) => format!("(sb [{}]%N)", b.iter().map(|x| x.to_string()).collect::<Vec<_>>().join(";")),
     }
 }
 
@@ -194,7 +205,10 @@ pub fn execute(v: &Value) -> String {
         let url_key = uri.as_ref().and_then(|u| completion_view(&server, u)).and_then(|(t, _)| t);
         let title = format!("T{}", i);
         let key_url = symbols.as_ref().and_then(|s| s.iter().find(|(name, _)| *name == title).map(|(_, u)| u.clone()));
-        let open = key_url.as_ref().and_then(|u| u.to_file_path().ok()).map(|p| p.to_string_lossy().to_string());
+        let open = key_url.as_ref().and_then(|u| u.to_file_path().ok()).map(|p| {
+            use std::os::unix::ffi::OsStrExt;
+            gbytes(p.as_os_str().as_bytes())
+        });
         note_terms.push(gapp(
             "Check_C14.Note",
             &[
@@ -203,7 +217,7 @@ pub fn execute(v: &Value) -> String {
                 gopt(disk.map(|k| gstr(&k))),
                 gopt(url_key.map(|k| gstr(&k))),
                 gopt(key_url.map(|u| gstr(&u.to_string()))),
-                gopt(open.map(|p| gstr(&p))),
+                gopt(open),
             ],
         ));
     }
